@@ -2,7 +2,8 @@
    documented defects are rejected by constructor and validator alike. *)
 From Model Require Import Bytes Prim Tables Cert KAC Mapping Sig LS RI Validate.
 From Gen Require Import Tables Validators.
-From Proofs Require Import BytesLemmas CtorProofs MappingProofs CtorRT ValidatorTie ElsChain LS2Layers Retail.
+From Coq Require Import Lia.
+From Proofs Require Import BytesLemmas CtorProofs MappingProofs CtorRT ValidatorTie ElsChain LS2Layers Retail SpecRI LS2Accept.
 Open Scope Z_scope.
 
 Theorem C14_signature : forall d t s, new_signature_from_bytes d t = Ok s ->
@@ -202,3 +203,57 @@ Theorem C14_router_info_parsed_value_parses_back : forall d i r b, wf d -> read_
   exists i', read_router_info b = Ok (i', []) /\ router_info_bytes i' = Ok b.
 Proof. exact read_router_info_reparse. Qed.
 Print Assumptions C14_router_info_parsed_value_parses_back.
+(* ... and for values that were BUILT, not parsed.  LeaseSet2: any value whose fields fit their
+   wire widths (ls2_fits: 32/16-bit header fields, offline block consistent with the flag and of
+   the sizes its types dictate, 1..16 keys whose declared length is their length, at most 16
+   40-byte leases, a signature of the length of its type, options that are a valid options list)
+   and whose destination is one the destination reader produces serialises to bytes that,
+   followed by anything, parse back to a value with the same fields and the same bytes.  The only
+   size condition is the reader's whole-input minimum (finding D6). *)
+Theorem C14_ls2_built_value_parses_back : forall l opts b x r0 r,
+  ls2_fits l opts -> wf x -> read_destination x = Ok (l2_dest l, r0) ->
+  lease_set2_bytes l = Ok b -> wf (b ++ r) ->
+  Gen.Consts.c_lease_set2_LEASESET2_MIN_SIZE <= Z.of_nat (length (b ++ r)) ->
+  exists l', read_lease_set2 (b ++ r) = Ok (l', r) /\ lease_set2_bytes l' = Ok b /\
+    l2_published l' = l2_published l /\ l2_expires l' = l2_expires l /\ l2_flags l' = l2_flags l /\
+    l2_offline l' = l2_offline l /\ map_values (l2_options l') = map Proofs.MapRT.wire_pair opts /\
+    l2_keys l' = l2_keys l /\ l2_leases l' = l2_leases l /\ sig_bytes (l2_sig l') = sig_bytes (l2_sig l).
+Proof. exact ls2_built_value_parses_back. Qed.
+Print Assumptions C14_ls2_built_value_parses_back.
+(* the premises are satisfiable: a concrete built value fits, its destination is one the reader
+   produces, and its serialisation reaches the reader's minimum *)
+Definition C14_ex_dest_bytes := Spec.Wire.spec_identity (repeatN 1 32) (repeatN 2 320) (repeatN 3 32) (Spec.Wire.spec_keycert 7 4 []).
+Definition C14_ex_dest : kac := match read_destination C14_ex_dest_bytes with Ok (k, _) => k | _ => mkKAC (mkKC (mkCert [] [] []) [] []) None [] None end.
+Definition C14_ex_ls2 : leaseset2 :=
+  mkLS2 C14_ex_dest 1700000000 600 0 None (mkMap None None) [mkEK 4 32 (repeatN 7 32)] [repeatN 9 40; repeatN 8 40] (mkSig 7 (repeatN 5 64)).
+Example C14_ls2_fits_nonvacuous : ls2_fits C14_ex_ls2 [] /\ read_destination C14_ex_dest_bytes = Ok (C14_ex_dest, []) /\
+  exists b, lease_set2_bytes C14_ex_ls2 = Ok b /\ (499 <= Z.of_nat (length b)).
+Proof.
+  split; [|split].
+  - constructor.
+    + vm_compute. reflexivity.
+    + vm_compute. reflexivity.
+    + vm_compute. reflexivity.
+    + vm_compute. reflexivity.
+    + split; [|reflexivity]. repeat split; try constructor; vm_compute; try lia; try reflexivity.
+    + split; [vm_compute; lia|]. constructor; [|constructor]. vm_compute. repeat split; reflexivity.
+    + split; [vm_compute; lia|]. repeat constructor.
+    + exists 64. vm_compute. split; reflexivity.
+  - vm_compute. reflexivity.
+  - eexists. split; [vm_compute; reflexivity|]. vm_compute. discriminate.
+Qed.
+(* RouterInfo built from the specification's fields (what NewRouterInfo assembles): parses back
+   with an empty remainder to a value with the same bytes *)
+Theorem C14_router_info_built_value_parses_back : forall (s c : N) (cl sl : nat) pub pad spk extra published addrs opts n sg,
+  In s [0; 1; 2; 7; 8; 11]%N -> In c [0; 4; 5; 6; 7]%N ->
+  Spec.SpecTables.spec_crypto_len (Z.of_N c) = Some (Z.of_nat cl) -> Spec.SpecTables.spec_spk_len (Z.of_N s) = Some (Z.of_nat sl) ->
+  length pub = cl -> length spk = sl -> length pad = (384 - cl - sl)%nat ->
+  (N.of_nat (length extra) < 65532)%N ->
+  ri_signing_denied (Z.of_N s) = false -> ri_crypto_denied (Z.of_N c) = false ->
+  sig_length (Z.of_N s) = Some n -> Z.of_nat (length sg) = n ->
+  (published < 2 ^ 64)%N -> (length addrs <= 255)%nat -> Forall ra_tuple_ok addrs -> SpecRA.opts_ok opts ->
+  let b := spec_router_info (Spec.Wire.spec_identity pub pad spk (Spec.Wire.spec_keycert s c extra)) published addrs opts sg in
+  wf b ->
+  exists i, read_router_info b = Ok (i, []) /\ router_info_bytes i = Ok b.
+Proof. exact spec_router_info_parses_back. Qed.
+Print Assumptions C14_router_info_built_value_parses_back.
